@@ -138,7 +138,10 @@ def searchsorted(bin_locations, inputs, eps=1e-6):
     # Work on a copy: the caller's tensor must not be modified.
     bin_locations = bin_locations.clone()
     bin_locations[..., -1] += eps
-    return torch.sum(inputs[..., None] >= bin_locations, dim=-1) - 1
+    bin_idx = torch.sum(inputs[..., None] >= bin_locations, dim=-1) - 1
+    # eps can be lost to rounding (e.g. a last location >= 32 in single precision); an input
+    # equal to the last location must still fall into the last bin.
+    return torch.clamp(bin_idx, max=bin_locations.shape[-1] - 2)
 
 
 def cbrt(x):
